@@ -166,6 +166,11 @@ def decConfs (j : Json) (k : String) : Except String (List (PConf String String)
 def encConfs (l : List (PConf String String)) : Json :=
   Json.arr (l.map fun c => Json.arr #[Json.str c.1, encStrs c.2]).toArray
 
+def encTM (T : TM S S) : Json :=
+  Json.mkObj [("Q", encStrs T.Q), ("Sigma", encStrs T.Sigma), ("Gamma", encStrs T.Gamma),
+    ("delta", Json.arr (T.delta.map fun e => encStrs [e.1.1, e.1.2, e.2.1, e.2.2.1, encDir e.2.2.2]).toArray),
+    ("q0", Json.str T.q0), ("qa", Json.str T.qAccept), ("qr", Json.str T.qReject), ("blank", Json.str T.blank)]
+
 def okJ (v : Json) : Json := Json.mkObj [("ok", v)]
 def errJ (e : Err) : Json := Json.mkObj [("err", Json.str e.toString)]
 
